@@ -682,3 +682,185 @@ Proof.
   - now apply honest_leafs.
   - intros i. now apply honest_node.
 Qed.
+
+Lemma build_spec_current (D : Type) (H : D -> D -> D) (dflt : D) (cutoff : Z) (leafs : list D) :
+  is_pow2 (zlen leafs) = true ->
+  from_digests D H dflt true cutoff (build_fuel D leafs) leafs = Ok (spec_tree D H dflt leafs).
+Proof.
+  intros Hp. apply build_spec_lemma; [left; reflexivity|exact Hp|].
+  unfold build_fuel, zlen. rewrite Nat2Z.inj_succ.
+  pose proof (Z.pow_gt_lin_r 2 (Z.succ (Z.of_nat (length leafs)))). lia.
+Qed.
+
+(* ---------------------------------------------------------------------------------------------- *)
+(* siblings, ancestors, paths                                                                      *)
+
+Lemma land_1 x : Z.land x 1 = x mod 2.
+Proof. change 1 with (Z.ones 1). rewrite Z.land_ones by lia. reflexivity. Qed.
+
+Lemma sibling_even x : Z.even x = true -> sibling x = x + 1.
+Proof.
+  intros He. unfold sibling. symmetry. apply Z.add_nocarry_lxor.
+  rewrite land_1. rewrite Zmod_even, He. reflexivity.
+Qed.
+
+Lemma sibling_spec x : sibling x = spec_sibling x.
+Proof.
+  unfold spec_sibling. destruct (Z.even x) eqn:He; [now apply sibling_even|].
+  assert (He' : Z.even (x - 1) = true).
+  { rewrite Z.even_sub, He. reflexivity. }
+  pose proof (sibling_even (x - 1) He') as Hs. unfold sibling in *.
+  replace (x - 1 + 1) with x in Hs by lia.
+  rewrite <- Hs at 1. rewrite Z.lxor_assoc, Z.lxor_nilpotent, Z.lxor_0_r. reflexivity.
+Qed.
+
+Lemma spec_sibling_invol x : spec_sibling (spec_sibling x) = x.
+Proof.
+  unfold spec_sibling. destruct (Z.even x) eqn:He.
+  - rewrite Z.even_add, He. cbn. lia.
+  - rewrite Z.even_sub, He. cbn. lia.
+Qed.
+
+Lemma spec_sibling_half x : spec_sibling x / 2 = x / 2.
+Proof.
+  unfold spec_sibling. destruct (Z.even x) eqn:He.
+  - apply Zeven_bool_iff in He. apply Zeven_ex_iff in He. destruct He as [q ->]. lia.
+  - rewrite <- Z.negb_odd in He. apply negb_false_iff in He.
+    apply Zodd_bool_iff in He. apply Zodd_ex_iff in He. destruct He as [q ->]. lia.
+Qed.
+
+Lemma spec_sibling_range x : 2 <= x -> 2 <= spec_sibling x /\ spec_sibling x <> x.
+Proof.
+  intros Hx. unfold spec_sibling. destruct (Z.even x) eqn:He; [lia|].
+  rewrite <- Z.negb_odd in He. apply negb_false_iff in He.
+  apply Zodd_bool_iff in He. apply Zodd_ex_iff in He. destruct He as [q ->]. lia.
+Qed.
+
+Lemma div_pow2_succ x k : 0 <= k -> x / 2 / 2 ^ k = x / 2 ^ (k + 1).
+Proof.
+  intros Hk. rewrite Z.div_div by (try apply Z.pow_pos_nonneg; lia).
+  rewrite Z.pow_add_r by lia. f_equal. lia.
+Qed.
+
+Lemma path_up_In fuel : forall x y, 0 <= x < 2 ^ Z.of_nat fuel ->
+  (In y (path_up fuel x) <-> 1 < y /\ ancestor y x).
+Proof.
+  unfold ancestor. induction fuel; intros x y Hx.
+  - cbn in Hx. assert (x = 0) by lia. subst. cbn [path_up In]. split; [tauto|].
+    intros [Hy [k [Hk ->]]]. rewrite Z.div_0_l in Hy by (pose proof (Z.pow_pos_nonneg 2 k); lia). lia.
+  - cbn [path_up]. destruct (1 <? x) eqn:E.
+    + apply Z.ltb_lt in E. cbn [In]. rewrite IHfuel.
+      2:{ rewrite Nat2Z.inj_succ, Z.pow_succ_r in Hx by lia. lia. }
+      split.
+      * intros [<-|[Hy [k [Hk ->]]]].
+        -- split; [lia|]. exists 0. split; [lia|]. now rewrite Z.div_1_r.
+        -- split; [exact Hy|]. exists (k + 1). split; [lia|]. apply div_pow2_succ. lia.
+      * intros [Hy [k [Hk ->]]]. destruct (Z.eq_dec k 0) as [->|Hk0].
+        -- left. now rewrite Z.div_1_r.
+        -- right. split; [exact Hy|]. exists (k - 1). split; [lia|].
+           rewrite div_pow2_succ by lia. f_equal. f_equal. lia.
+    + apply Z.ltb_ge in E. cbn [In]. split; [tauto|].
+      intros [Hy [k [Hk ->]]]. exfalso.
+      assert (x / 2 ^ k <= x).
+      { apply Z.div_le_upper_bound; [apply Z.pow_pos_nonneg; lia|].
+        pose proof (Z.pow_pos_nonneg 2 k). nia. }
+      lia.
+Qed.
+
+(* the loop needs at most 64 iterations for a usize: more fuel changes nothing *)
+Lemma path_up_fuel_indep fuel : forall x k, 0 <= x < 2 ^ Z.of_nat fuel ->
+  path_up (fuel + k) x = path_up fuel x.
+Proof.
+  induction fuel; intros x k Hx.
+  - cbn in Hx. assert (x = 0) by lia. subst. destruct k; reflexivity.
+  - cbn [path_up Nat.add]. destruct (1 <? x); [|reflexivity]. f_equal. apply IHfuel.
+    rewrite Nat2Z.inj_succ, Z.pow_succ_r in Hx by lia. lia.
+Qed.
+
+(* ---------------------------------------------------------------------------------------------- *)
+(* sorting                                                                                         *)
+
+Lemma insert_asc_In x l y : In y (insert_asc x l) <-> y = x \/ In y l.
+Proof.
+  induction l as [|a r IH]; cbn [insert_asc In]; [intuition|].
+  destruct (x <=? a); cbn [In]; [intuition|]. rewrite IH. intuition.
+Qed.
+
+Lemma isort_asc_In l y : In y (isort_asc l) <-> In y l.
+Proof.
+  induction l as [|a r IH]; cbn [isort_asc fold_right In]; [tauto|].
+  fold (isort_asc r). rewrite insert_asc_In, IH. intuition.
+Qed.
+
+Lemma insert_asc_sorted x l : StronglySorted Z.le l -> StronglySorted Z.le (insert_asc x l).
+Proof.
+  induction 1 as [|a r Hs IH Hf]; cbn [insert_asc].
+  - constructor; constructor.
+  - destruct (x <=? a) eqn:E.
+    + apply Z.leb_le in E. constructor; [constructor; assumption|].
+      constructor; [exact E|]. rewrite Forall_forall in *. intros z Hz. specialize (Hf z Hz). lia.
+    + apply Z.leb_gt in E. constructor; [exact IH|].
+      rewrite Forall_forall in *. intros z Hz. apply insert_asc_In in Hz. destruct Hz as [->|Hz]; [lia|auto].
+Qed.
+
+Lemma isort_asc_sorted l : StronglySorted Z.le (isort_asc l).
+Proof.
+  induction l as [|a r IH]; cbn [isort_asc fold_right]; [constructor|].
+  apply insert_asc_sorted. exact IH.
+Qed.
+
+Lemma dedup_adj_In l y : In y (dedup_adj l) <-> In y l.
+Proof.
+  induction l as [|a r IH]; [reflexivity|].
+  cbn [dedup_adj]. destruct r as [|b r'].
+  - reflexivity.
+  - destruct (a =? b) eqn:E.
+    + apply Z.eqb_eq in E. subst b. rewrite IH. cbn [In]. intuition.
+    + change (In y (a :: dedup_adj (b :: r')) <-> In y (a :: b :: r')).
+      cbn [In] in *. rewrite IH. reflexivity.
+Qed.
+
+Lemma dedup_adj_sorted l : StronglySorted Z.le l -> StronglySorted Z.lt (dedup_adj l).
+Proof.
+  induction 1 as [|a r Hs IH Hf]; [constructor|].
+  cbn [dedup_adj]. destruct r as [|b r'].
+  - constructor; constructor.
+  - destruct (a =? b) eqn:E; [exact IH|].
+    apply Z.eqb_neq in E. constructor; [exact IH|].
+    rewrite Forall_forall in *. intros z Hz. apply (proj1 (dedup_adj_In _ _)) in Hz.
+    inversion Hs as [|? ? Hs' Hf']; subst. rewrite Forall_forall in Hf'.
+    pose proof (Hf b (or_introl eq_refl)) as Hab.
+    cbn [In] in Hz. destruct Hz as [<-|Hz]; [lia|]. specialize (Hf' z Hz). lia.
+Qed.
+
+Lemma rev_sorted_gt l : StronglySorted Z.lt l -> StronglySorted Z.gt (rev l).
+Proof.
+  induction 1 as [|a r Hs IH Hf]; [constructor|].
+  cbn [rev]. clear Hs. revert IH. generalize (rev_involutive r). intros _.
+  assert (Hf' : Forall (fun z => z > a) (rev r)).
+  { rewrite Forall_forall in *. intros z Hz. apply in_rev in Hz. specialize (Hf z Hz). lia. }
+  clear Hf. induction (rev r) as [|b q IHq]; intros Hq.
+  - constructor; constructor.
+  - cbn [app]. inversion Hq; subst. inversion Hf'; subst. constructor; [apply IHq; assumption|].
+    apply Forall_app. split; [assumption|]. constructor; [assumption|constructor].
+Qed.
+
+Lemma sorted_gt_unique (l1 : list Z) : forall l2,
+  StronglySorted Z.gt l1 -> StronglySorted Z.gt l2 -> (forall x, In x l1 <-> In x l2) -> l1 = l2.
+Proof.
+  induction l1 as [|a r IH]; intros l2 H1 H2 Heq.
+  - destruct l2 as [|b q]; [reflexivity|]. exfalso. apply (Heq b). left. reflexivity.
+  - destruct l2 as [|b q]; [exfalso; apply (Heq a); left; reflexivity|].
+    inversion H1 as [|? ? S1 F1]; subst. inversion H2 as [|? ? S2 F2]; subst.
+    rewrite Forall_forall in F1, F2.
+    assert (a = b).
+    { pose proof (proj1 (Heq a) (or_introl eq_refl)) as Ha. pose proof (proj2 (Heq b) (or_introl eq_refl)) as Hb.
+      destruct Ha as [Ha|Ha]; [congruence|]. destruct Hb as [Hb|Hb]; [congruence|].
+      specialize (F1 b Hb). specialize (F2 a Ha). lia. }
+    subst b. f_equal. apply IH; try assumption.
+    intros x. split; intros Hx.
+    + pose proof (proj1 (Heq x) (or_intror Hx)) as Hy. destruct Hy as [<-|Hy]; [|exact Hy].
+      specialize (F1 a Hx). lia.
+    + pose proof (proj2 (Heq x) (or_intror Hx)) as Hy. destruct Hy as [<-|Hy]; [|exact Hy].
+      specialize (F2 a Hx). lia.
+Qed.
